@@ -52,6 +52,8 @@ pub fn gen_pattern(rng: &mut Rng) -> J {
                 .set("style", style)
                 .set("consume", consume)
                 .set("extra_reserve", if rng.chance(1, 4) { rng.range(0, 64) } else { 0 })
+                // when a split takes everything that is there: split_to(len) / split() / split_off(0)
+                .set("whole", rng.below(3))
                 .set("roundtrip", if window == 0 && rng.chance(1, 5) { *rng.pick(&["freeze_try_into_mut", "freeze_from", "clone_drop"]) } else { "none" })
                 // park the (possibly empty) recycling handle as Bytes and take it back *before* the refill
                 .set("rt_before", if window == 0 && rng.chance(1, 6) { *rng.pick(&["freeze_try_into_mut", "freeze_from"]) } else { "none" }),
@@ -300,7 +302,15 @@ pub fn run_pattern(p: &J, limit: u64, seed: u64) -> Out {
                         retained.push_back(Part::V(part));
                     }
                     _ => {
-                        let part = buf.split_to(k);
+                        let part = if k == buf.len() && k > 0 {
+                            match spec.us("whole") {
+                                1 => buf.split(),
+                                2 => buf.split_off(0),
+                                _ => buf.split_to(k),
+                            }
+                        } else {
+                            buf.split_to(k)
+                        };
                         retained_bytes += k;
                         retained.push_back(Part::M(part));
                     }
